@@ -219,7 +219,14 @@ pub fn trace(
                 let instrumented_block =
                     gen_block(&func_name, &async_expr.block, true, false, &args);
                 let async_attrs = &async_expr.attrs;
+                // Keep the statements in front of the pinned future.
+                let prefix_stmts = input
+                    .block
+                    .stmts
+                    .iter()
+                    .take_while(|stmt| !std::ptr::eq(*stmt, internal_fun._source_stmt));
                 quote::quote! {
+                    #(#prefix_stmts) *
                     Box::pin(#(#async_attrs) * #instrumented_block)
                 }
             }
